@@ -20,6 +20,8 @@ struct Case {
     max_cycles: usize,
     /// the calls made one after the other on ONE engine and fact store
     entries: Vec<Entry>,
+    /// knowledge-base edits between the calls: (made just before call #i, rule name, true = remove_rule / false = add the rule again)
+    kb_edits: Vec<(usize, String, bool)>,
 }
 
 impl Case {
@@ -30,6 +32,7 @@ impl Case {
             "store": self.store.to_json(),
             "max_cycles": self.max_cycles,
             "entries": self.entries.iter().map(|e| e.name()).collect::<Vec<_>>(),
+            "kb_edits": self.kb_edits.iter().map(|(i, n, rm)| json!({"before_call": i, "rule": n, "op": if *rm { "remove_rule" } else { "add_rule_again" }})).collect::<Vec<_>>(),
             "grl": fmt_rules(&self.rules),
         })
     }
@@ -42,6 +45,13 @@ impl Case {
             entries: match j.get("entries").and_then(|v| v.as_array()) {
                 Some(a) => a.iter().filter_map(|v| v.as_str()).map(Entry::from_name).collect(),
                 None => vec![Entry::from_name(j.get("entry").and_then(|v| v.as_str()).unwrap_or("execute_with_callback"))],
+            },
+            kb_edits: match j.get("kb_edits").and_then(|v| v.as_array()) {
+                Some(a) => a
+                    .iter()
+                    .filter_map(|e| Some((e.get("before_call")?.as_u64()? as usize, e.get("rule")?.as_str()?.to_string(), e.get("op")?.as_str()? == "remove_rule")))
+                    .collect(),
+                None => vec![],
             },
         })
     }
@@ -57,6 +67,7 @@ struct Obs {
     quiesced: bool,
     fixpoint_rules_checked: u64,
     exec_err: bool,
+    kb_edits: u64,
     undefined: Vec<&'static str>,
 }
 
@@ -83,9 +94,28 @@ fn judge(case: &Case) -> (Verdict, Obs) {
     };
     // no-loop tracking is per engine: it carries over from call to call
     let mut noloop_fired: std::collections::BTreeSet<String> = std::collections::BTreeSet::new();
+    // rules currently removed from the knowledge base
+    let mut absent: std::collections::BTreeSet<String> = std::collections::BTreeSet::new();
+    // rules that came back through add_rule (enabled again, whatever `disabled` said)
+    let mut readded: std::collections::BTreeSet<String> = std::collections::BTreeSet::new();
     for (ci, entry) in case.entries.iter().enumerate() {
+        for (at, name, remove) in &case.kb_edits {
+            if *at != ci {
+                continue;
+            }
+            if *remove {
+                if session.remove_rule(name) {
+                    absent.insert(name.clone());
+                    obs.kb_edits += 1;
+                }
+            } else if absent.contains(name) && session.add_rule_again(name) {
+                absent.remove(name);
+                readded.insert(name.clone());
+                obs.kb_edits += 1;
+            }
+        }
         let run = session.run(*entry);
-        let v = judge_call(case, ci, *entry, &run, &mut noloop_fired, &mut obs);
+        let v = judge_call(case, ci, *entry, &run, &mut noloop_fired, &absent, &readded, &mut obs);
         if v.is_some() {
             return (v, obs);
         }
@@ -96,7 +126,17 @@ fn judge(case: &Case) -> (Verdict, Obs) {
     (None, obs)
 }
 
-fn judge_call(case: &Case, ci: usize, entry: Entry, run: &Run, noloop_fired: &mut std::collections::BTreeSet<String>, obs: &mut Obs) -> Verdict {
+#[allow(clippy::too_many_arguments)]
+fn judge_call(
+    case: &Case,
+    ci: usize,
+    entry: Entry,
+    run: &Run,
+    noloop_fired: &mut std::collections::BTreeSet<String>,
+    absent: &std::collections::BTreeSet<String>,
+    readded: &std::collections::BTreeSet<String>,
+    obs: &mut Obs,
+) -> Verdict {
     let n = case.rules.len();
     obs.passes += run.passes as u64;
     obs.firings += run.firings.len() as u64;
@@ -107,6 +147,9 @@ fn judge_call(case: &Case, ci: usize, entry: Entry, run: &Run, noloop_fired: &mu
             if r.attrs.no_loop {
                 noloop_fired.insert(r.name.clone());
             }
+        }
+        if absent.contains(&f.rule) {
+            return Some(("removed-rule-fired", "general".into(), format!("{}: rule {} fired although remove_rule took it out of the knowledge base before the call", call, f.rule)));
         }
     }
     match &run.end {
@@ -202,7 +245,10 @@ fn judge_call(case: &Case, ci: usize, entry: Entry, run: &Run, noloop_fired: &mu
                         Err(_) => return None,
                     };
                     for r in &case.rules {
-                        if case.disabled.contains(&r.name) {
+                        if absent.contains(&r.name) {
+                            continue;
+                        }
+                        if case.disabled.contains(&r.name) && !readded.contains(&r.name) {
                             continue;
                         }
                         if r.attrs.no_loop && noloop_fired.contains(&r.name) {
@@ -211,6 +257,7 @@ fn judge_call(case: &Case, ci: usize, entry: Entry, run: &Run, noloop_fired: &mu
                         // (no rule fired in the last pass, so no activation group is blocked in it)
                         match eval_cond(&r.cond, &fin) {
                             T3::True => {
+                                let later = if !case.kb_edits.is_empty() && ci > 0 { "after-a-knowledge-base-edit-between-calls" } else { later };
                                 let cause = if r.attrs.activation_group.is_some() {
                                     format!("activation-group-rule-still-true|{}", later)
                                 } else if r.attrs.no_loop {
@@ -272,6 +319,7 @@ fn record(case: &Case, st: &mut Stats) {
     if case.entries.len() > 1 {
         st.count("histories_with_several_calls_on_one_engine");
     }
+    st.add("knowledge_base_edits_between_calls", obs.kb_edits);
     st.add("passes_observed", obs.passes);
     st.add("firings_observed", obs.firings);
     st.add("fixpoint_rule_checks", obs.fixpoint_rules_checked);
@@ -393,7 +441,20 @@ fn gen_case(rng: &mut Rng) -> Case {
     };
     let ncalls = *rng.pick(&[1usize, 1, 1, 2, 2, 3]);
     let entries = (0..ncalls).map(|_| if rng.bool() { Entry::WithCallback } else { Entry::Execute }).collect();
-    Case { rules, disabled, store: gen_store(rng), max_cycles, entries }
+    let mut kb_edits = Vec::new();
+    if ncalls > 1 && rng.chance(1, 2) {
+        // remove a rule between two calls (positions in the salience-ordered list shift), and
+        // sometimes bring it back before a later call
+        let victim = rng.pick(&rules).name.clone();
+        let at = 1 + rng.below(ncalls - 1);
+        kb_edits.push((at, victim.clone(), true));
+        if at + 1 < ncalls && rng.bool() {
+            kb_edits.push((at + 1, victim, false));
+        } else if rng.chance(1, 3) && rules.len() > 1 {
+            kb_edits.push((at, rng.pick(&rules).name.clone(), true));
+        }
+    }
+    Case { rules, disabled, store: gen_store(rng), max_cycles, entries, kb_edits }
 }
 
 struct C03;
@@ -409,7 +470,7 @@ fn explore_shard(cli: &Cli, shard: usize, nshards: usize, rng: &mut Rng, st: &mu
         }
         for mc in 0..=64usize {
             for entry in [Entry::WithCallback, Entry::Execute] {
-                let c = Case { max_cycles: mc, entries: vec![entry], ..base.clone() };
+                let c = Case { max_cycles: mc, entries: vec![entry], kb_edits: vec![], ..base.clone() };
                 record(&c, st);
             }
         }
@@ -431,7 +492,7 @@ impl Check for C03 {
         "C03"
     }
     fn rule(&self) -> String {
-        "1-5 rules drawn from: counters under a limit above/below the bound, flag flippers (ping-pong), always-true rules, quiescing rules, string state machines, counters chasing each other; no-loop on 1/3 of the rules, activation groups on 1/4, 1/8 disabled, salience ties, rules whose action fails (the call returns Err); 1-3 calls on ONE engine and fact store (execute_with_callback / execute mixed); max_cycles over 0..=64 (a fixed family of programs is run on EVERY max_cycles value: exhaustive over that grid), timeout None. Non-trivial: at least one firing and at least two passes observed; distinct by (rules, disabled, store, max_cycles).".into()
+        "1-5 rules drawn from: counters under a limit above/below the bound, flag flippers (ping-pong), always-true rules, quiescing rules, string state machines, counters chasing each other; no-loop on 1/3 of the rules, activation groups on 1/4, 1/8 disabled, salience ties, rules whose action fails (the call returns Err); 1-3 calls on ONE engine and fact store (execute_with_callback / execute mixed), in half of the multi-call histories with remove_rule / add-the-rule-again edits of the knowledge base between two calls; max_cycles over 0..=64 (a fixed family of programs is run on EVERY max_cycles value: exhaustive over that grid), timeout None. Non-trivial: at least one firing and at least two passes observed; distinct by (rules, disabled, store, max_cycles).".into()
     }
     fn assumptions(&self) -> Vec<String> {
         vec![
